@@ -77,7 +77,7 @@ theorem C11_no_gap_opened_first (cfg : Cfg) (pre post : List Ev) (id h : Nat) (s
         · rename_i hcond
           cases h2
           obtain ⟨c1, hc1, _⟩ := run_stable (h := h)
-            (c := { id := id, base := countFor id s1.seen }) hr (by simp [hcond.2.2])
+            (c := { id := id, base := countFor id s1.seen, closed := s1.cfg.lateClosed && s1.closed }) hr (by simp [hcond.2.2])
           exact ⟨c1, hc1⟩
         · cases h2
       · cases hr
@@ -253,10 +253,24 @@ theorem C11_listener (l : Lst) :
 /-- `Open` after `Close` hands out a fresh, open connection object: its Read is not enabled
     with any result — it blocks for ever, although the mux is closed. -/
 theorem unfixed_open_after_close_read_blocks :
-    ∃ s, run (MuxSt.init ⟨4, 4⟩) [.closeMux, .openNew 1 0] = some s ∧ s.closed = true ∧
+    ∃ s, run (MuxSt.init { mp := 4, qlen := 4 }) [.closeMux, .openNew 1 0] = some s ∧ s.closed = true ∧
       ∀ blen bcap r, step s (.read 0 blen bcap r) = none := by
   refine ⟨_, rfl, rfl, ?_⟩
   intro blen bcap r
   exact C11_open_empty_read_blocks _ 0 { id := 1 } rfl rfl rfl blen bcap r
+
+/-- With the repaired `Open` (docs/fixes/C11-1.patch; the harness measures which behaviour
+    the implementation has and passes it as `cfg.lateClosed`): once the mux is closed EVERY
+    connection object is closed, whenever it was opened — so by `C11_closed_returns` every
+    Read, Write and Close on every logical connection returns. -/
+theorem C11_repaired_closed_mux_all_closed (cfg : Cfg) (hlate : cfg.lateClosed = true)
+    (tr : List Ev) (s : MuxSt) (hg : bigBuffers tr = true)
+    (hr : run (MuxSt.init cfg) tr = some s) (hcl : s.closed = true) :
+    ∀ (h : Nat) (c : Conn), s.objs[h]? = some c → c.closed = true :=
+  run_allClosed (s := MuxSt.init cfg) hlate (Inv.init cfg)
+    (by intro hc; simp [MuxSt.init] at hc) hg hr hcl
+
+example : ∃ s c, run (MuxSt.init { mp := 4, qlen := 4, lateClosed := true }) [.closeMux, .openNew 1 0] = some s ∧
+    s.objs[0]? = some c ∧ c.closed = true := ⟨_, _, rfl, rfl, rfl⟩
 
 end Nri.Props.C11
